@@ -385,6 +385,16 @@ def _ev(e, env):
                 return False
             left = right
         return True
+    if isinstance(e, ast.Attribute) and src(e) in env:
+        return env[src(e)]
+    if isinstance(e, ast.Call) and isinstance(e.func, ast.Attribute) and e.func.attr in ('get', 'keys', 'values') :
+        recv = _ev(e.func.value, env)
+        if isinstance(recv, dict):
+            args = [_ev(a, env) for a in e.args]
+            if e.func.attr == 'get':
+                return recv.get(*args)
+            return list(getattr(recv, e.func.attr)())
+        raise _Unknown('method on a non-dict')
     if isinstance(e, ast.Call) and isinstance(e.func, ast.Name) and e.func.id == 'isinstance' and len(e.args) == 2:
         return isinstance(_ev(e.args[0], env), _ev(e.args[1], env))
     if isinstance(e, ast.Call) and isinstance(e.func, ast.Name) and e.func.id == 'len' and len(e.args) == 1:
@@ -520,3 +530,45 @@ def rule_constraint_normalisers(ck, repo, R):
             ck.decide(len(calls) == 1 and len(tgt) == 1 and tgt[0].value is calls[0] and src(calls[0].args[0]) == g.params()[-1], R, f'{c.name}.{attr}:routed', None,
                       f'{c.name}.{attr} setter no longer stores _validate(value)', file=g.file, line=g.lineno, func=g.qualname)
     ck.floor(R, 20)
+
+
+def rule_isotope_setter(ck, repo, R):
+    ck.rule(R, 'Element.isotope accepts exactly the tabulated isotope numbers: the rejecting guard is a KEY test on isotopes_distribution (the tables list '
+               'synthetic / radio-label isotopes with abundance 0.0, which must stay representable); evaluated over a sample table {1: 0.5, 2: 0.0}')
+    cls = repo.cls('chython.periodictable.base.element:Element')
+    ck.require(cls is not None, 'Element not found')
+    f = cls.method('isotope', setter=True)
+    ck.require(f is not None, 'Element.isotope setter not found')
+    par = f.params()[-1]
+    body = strip_doc(f.node.body)
+    ck.require(body and isinstance(body[0], ast.If), 'isotope setter: guard ladder not found')
+    arms = if_chain(body[0])
+    table = {1: 0.5, 2: 0.0}
+    verdict = {}
+    for v in (1, 2, 3, None):
+        env = {par: v, 'self.isotopes_distribution': table, 'self.isotopes_masses': {1: 1.0, 2: 2.0}}
+        out = 'accept'
+        for test, blk in arms:
+            try:
+                hit = True if test is None else _ev(test, env)
+            except _Unknown as e:
+                raise AnalysisError(f'isotope setter: guard `{src(test)}` not understood ({e})')
+            if hit:
+                for st in blk:
+                    if isinstance(st, ast.Raise):
+                        out = 'reject'
+                    elif isinstance(st, ast.If):
+                        try:
+                            if _ev(st.test, env) and any(isinstance(x, ast.Raise) for x in st.body):
+                                out = 'reject'
+                        except _Unknown as e:
+                            raise AnalysisError(f'isotope setter: guard `{src(st.test)}` not understood ({e})')
+                break
+        verdict[v] = out
+    want = {1: 'accept', 2: 'accept', 3: 'reject', None: 'accept'}
+    for v, w in want.items():
+        what = {1: 'tabulated isotope with natural abundance', 2: 'tabulated isotope with abundance 0.0', 3: 'isotope that is not tabulated', None: 'None (no isotope mark)'}[v]
+        ck.decide(verdict[v] == w, R, f'isotope:{v}', verdict[v], f'Element.isotope setter: {what} is {verdict[v]}ed, must be {w}ed', file=f.file, line=f.lineno, func=f.qualname)
+    stores = [n for n in ast.walk(f.node) if isinstance(n, ast.Assign) and src(n.targets[0]) == 'self._isotope']
+    ck.decide(len(stores) == 1 and src(stores[0].value) == par, R, 'isotope:stored', None, 'the validated value is no longer what is stored', file=f.file, line=f.lineno)
+    ck.floor(R, 5)
